@@ -484,7 +484,10 @@ static void con_op(void)
 		if (socketpair(AF_UNIX, ccon_dgram ? SOCK_DGRAM : SOCK_STREAM, 0, sv) < 0) { puts("R nosocket | C - | I ret=0"); return; }
 		MPT_STRUCT(socket) sock; sock._id = sv[0];
 		creplen = 0;
+		/* (mpt_connection_assign closes the old stream but drops the pointer to its descriptor: freed here) */
+		void *oldsrm = ccon_dgram ? 0 : (void *) ccon.out.buf._buf;
 		int r = mpt_connection_assign(&ccon, &sock);
+		if (oldsrm && oldsrm != (void *) ccon.out.buf._buf) free(oldsrm);
 		close(sv[0]);
 		sin_drop_peer();
 		sin_peer = sv[1]; sin_fd0 = -1;
